@@ -41,6 +41,14 @@ MUTATIONS = [
     ("tlexport/session.py", "        if self.client_hello_seen:\n            self.can_decrypt = True", "        if self.client_hello_seen:\n            self.can_decrypt = False", "server hello: latch clears"),
     ("tlexport/session.py", "        if packet.sport in server_ports:", "        if packet.dport in server_ports:", "set_client_and_server_ports: roles by destination port"),
     ("tlexport/session.py", "        elif (packet.ip_src == self.client_ip and packet.sport == self.client_port\n", "        elif (packet.ip_src == self.client_ip and packet.dport == self.client_port\n", "matches_session: wrong port"),
+    ("tlexport/session.py", "            if sequence in self.seen_packets_server:\n                return", "            if sequence in self.seen_packets_client:\n                return", "Session.handle_packet: duplicate test against the other direction"),
+    ("tlexport/session.py", "            self.seen_packets_client.append(sequence)\n", "            self.seen_packets_client.append(sequence + 1)\n", "Session.handle_packet: wrong sequence number remembered"),
+    ("tlexport/session.py", "        self.server_packet_buffer.sort(key=lambda x: (x.seq - base) % 2 ** 32)", "        self.server_packet_buffer.sort(key=lambda x: (x.seq - base) % 2 ** 31)", "extract_server_buf: sort key mod 2^31"),
+    ("tlexport/session.py", "            base = min(self.client_packet_buffer, key=lambda x: (x.seq - first + 2 ** 31) % 2 ** 32).seq", "            base = min(self.client_packet_buffer, key=lambda x: (x.seq - first) % 2 ** 32).seq", "extract_client_buf: unsigned presync distance"),
+    ("tlexport/session.py", "            self.server_next_seq = (base + total_packet_len) % 2 ** 32", "            self.server_next_seq = (base + total_packet_len)", "extract_server_buf: next_seq does not wrap"),
+    ("tlexport/session.py", "            if (self.client_packet_buffer[i].seq + len(self.client_packet_buffer[i].tls_data)) % 2 ** 32 != \\\n", "            if (self.client_packet_buffer[i].seq + len(self.client_packet_buffer[i].tls_data)) != \\\n", "extract_client_buf: contiguity without wrap"),
+    ("tlexport/quic/quic_session.py", "    QuicPacketType.RTT_O: (QuicPacketType.RTT_1, QuicPacketType.RTT_O),", "    QuicPacketType.RTT_O: (QuicPacketType.RTT_O,),", "PACKET_TYPE_MAP: 0-RTT in a space of its own"),
+    ("tlexport/quic/quic_session.py", "        self.packet_number_client = {(QuicPacketType.INITIAL,): 0, (QuicPacketType.HANDSHAKE,): 0,", "        self.packet_number_client = {(QuicPacketType.INITIAL,): 0, (QuicPacketType.HANDSHAKE,): 1,", "set_packet_number_spaces: a space starts at 1"),
     ("tlexport/main.py", "if ((int(packet.tls_data[0]) & 0x40) >> 6) == 1 or args.greasy:", "if ((int(packet.tls_data[0]) & 0x80) >> 7) == 1 or args.greasy:", "run: fixed bit is bit 7"),
     ("tlexport/main.py", "                if len(cid) > 0 and cid == packet_payload[1:1 + len(cid)]:", "                if cid == packet_payload[1:1 + len(cid)]:", "handle_quic_packet: empty CID matches"),
     ("tlexport/main.py", "                    candidates = session.server_cids\n", "                    candidates = session.client_cids\n", "handle_quic_packet: sender-side CIDs"),
@@ -73,7 +81,9 @@ def group_of(what):
              "get_variable_length_int_length": ["Varint"], "get_full_packet_number": ["Pn"], "check_key_epoch": ["QuicSess"],
              "packet_isserver": ["QuicSess"], "matches_session_dgram": ["QuicSess"], "handle_alert": ["TlsSess"],
              "handle_tls_client_hello": ["TlsSess"], "server hello": ["TlsSess"], "set_client_and_server_ports": ["Ports"],
-             "matches_session": ["Demux"], "run": ["Demux"], "OutputBuilder": ["Ports"], "QUICOutputbuilder": ["Ports"]}
+             "matches_session": ["Demux"], "run": ["Demux"], "OutputBuilder": ["Ports"], "QUICOutputbuilder": ["Ports"],
+             "Session.handle_packet": ["Reasm"], "extract_server_buf": ["Reasm"], "extract_client_buf": ["Reasm"],
+             "PACKET_TYPE_MAP": ["Pn"], "set_packet_number_spaces": ["Pn"]}
     if fn == "handle_quic_packet":
         return ["QuicDissect"] if "long header read" in what else ["Demux"]
     return table[fn]
